@@ -61,6 +61,7 @@ func C16(c *run.Ctx) {
 		w := world.New(world.Opts{Mode: world.Mode{ContractDevice: contract, DB: db, Hydrate: (si/3)%2 == 1}, JWTAccess: (si/24)%2 == 1, Cfg: func(cfg *fosite.Config) { cfg.DeviceAndUserCodeLifespan = 5 * time.Minute }})
 		w.AddClient(world.ClientSpec{ID: "pub-x", Public: true, RedirectURIs: []string{"https://app-x.example/cb"}, GrantTypes: world.AllGrants, ResponseTypes: world.AllResponseTypes,
 			Scopes: []string{"openid", "offline", "fosite"}})
+		w.DeviceFreshSession = (si/5)%2 == 1
 		client := []string{"conf-a", "pub-c"}[si%2]
 		wrong := "conf-b"
 		scope := "fosite"
@@ -78,7 +79,7 @@ func C16(c *run.Ctx) {
 			continue
 		}
 		d := &devReq{dc: dv.S("device_code"), uc: dv.S("user_code"), client: client, decision: "pending", exp: time.Now().Add(5 * time.Minute)}
-		hist := []string{fmt.Sprintf("store contract=%v db=%v refresh=%v openid=%v client=%s", contract, db, withRefresh, openid, client), "start"}
+		hist := []string{fmt.Sprintf("store contract=%v db=%v refresh=%v openid=%v client=%s fresh-session-at-approval=%v", contract, db, withRefresh, openid, client, w.DeviceFreshSession), "start"}
 		if seenCodes[d.dc] || seenCodes[d.uc] {
 			c.Violate(run.Violation{Kind: "device-code-repeated", Key: "device-code-repeated", Detail: "a device or user code was handed out twice"})
 		}
